@@ -264,6 +264,9 @@ func finish(w *World, ev *Evidence, results []*harnessResult, kf *knownFindings,
 	traceMismatch := 0
 	if len(scripts) > 0 && !noReplay {
 		if err := runNativeReplays(w, scripts, verbose); err != nil {
+			if verbose {
+				fmt.Println(err.Error())
+			}
 			fmt.Printf("INCONCLUSIVE property=%s native replay failed to run: %v\n", prop, firstLine(err.Error()))
 			ev.Inconclusive = append(ev.Inconclusive, "native replay: "+firstLine(err.Error()))
 		} else {
